@@ -36,11 +36,14 @@ class ClientSubRun:
         nuni = 3 + ch.pick("cfg.nuni", 3)
         # a third of the runs use the ids of the manager's own status messages (FAILED_MESSAGE, MESSAGE_TRAFFIC,
         # ACTIVE_CLIENTS, CLIENT_INFO, CLIENT_CLOSED, TIMING_MESSAGE) or a mix of both as the universe
-        uk = ch.weighted("cfg.universe", [(4, "user"), (1, "status"), (1, "mixed")])
+        uk = ch.weighted("cfg.universe", [(4, "user"), (1, "status"), (1, "mixed"), (1, "edge")])
         if uk == "user":
             self.uni = UNIVERSE[:nuni]
         elif uk == "status":
             self.uni = [33, 80, 8, 30, 31, 32][:nuni + 1]
+        elif uk == "edge":
+            # the ends of the id range: EXIT (0), 1, the last ids the statistics cover
+            self.uni = [0, 1, 10000, 9999, 1000][:nuni]
         else:
             self.uni = [1000, 33, 1001, 80, 8][:nuni]
         self.res.config = dict(timecode=timecode, loglevel=lvl, universe=self.uni)
